@@ -13,6 +13,7 @@ package main
 
 import (
 	"bytes"
+	"context"
 	"encoding/json"
 	"errors"
 	"flag"
@@ -48,6 +49,11 @@ const (
 
 const reloadTimeout = 50 * time.Millisecond
 
+// histories with operations attempted inside a reload hold the reload at a hook point for
+// intrWait; their handlers get a long reload timeout so that this never turns into a timeout
+const intrWait = 25 * time.Millisecond
+const intrReloadTimeout = 3 * time.Second
+
 var validationKey = []byte("valid")
 
 // ---------------------------------------------------------------- instrumented backend
@@ -55,6 +61,8 @@ var validationKey = []byte("valid")
 type world struct {
 	mu       sync.Mutex
 	events   [][2]int
+	egid     []uint64 // goroutine that made the call, per event
+	r        *runner  // the history that owns this world (hook points)
 	nextID   int
 	uac, dc  int
 	probing  bool
@@ -102,6 +110,7 @@ func (w *world) newBackend(key bool) *fakeDB {
 	f := &fakeDB{w: w, id: w.nextID, hasKey: key, closedCh: make(chan struct{})}
 	w.nextID++
 	w.events = append(w.events, [2]int{f.id, evOpen})
+	w.egid = append(w.egid, gid())
 	return f
 }
 
@@ -121,6 +130,7 @@ func (f *fakeDB) recLocked(op int) {
 		f.w.uac++
 	}
 	f.w.events = append(f.w.events, [2]int{f.id, op})
+	f.w.egid = append(f.w.egid, gid())
 }
 
 func (f *fakeDB) NewContext() db.Context { f.rec(evNewContext); return &fakeCtx{} }
@@ -167,6 +177,9 @@ func (f *fakeDB) Close() error {
 	if first {
 		close(f.closedCh)
 	}
+	if f.w.r != nil {
+		f.w.r.fire("close", nil) // hook point: inside a backend's Close
+	}
 	return nil
 }
 
@@ -186,6 +199,9 @@ func (f *fakeDB) Reload(path string) (db.DBI, error) {
 	}
 	if sc.started != nil {
 		close(sc.started)
+	}
+	if w.r != nil {
+		w.r.fire("dbireload", sc) // hook point: inside DBI.Reload of the served backend
 	}
 	if sc.block != nil {
 		<-sc.block
@@ -219,11 +235,13 @@ func (f *fakeDB) Reload(path string) (db.DBI, error) {
 // ---------------------------------------------------------------- histories
 
 type gop struct {
-	K   string `json:"k"`             // acq use rel reload tpub tfirst late shutdown race
+	K   string `json:"k"`             // acq use rel reload tpub tfirst late shutdown race reloadx
 	R   int    `json:"r,omitempty"`   // reader slot
 	C   string `json:"c,omitempty"`   // new same err
 	Key bool   `json:"key,omitempty"` // validation key present
 	I   int    `json:"i,omitempty"`   // index of the pending reload
+	At  string `json:"at,omitempty"`  // reloadx: hook point locked | dbireload | close | done
+	X   *gop   `json:"x,omitempty"`   // reloadx: operation attempted from another goroutine at that point
 }
 
 type stepOut struct {
@@ -235,6 +253,9 @@ type stepOut struct {
 	Pins   [][2]int `json:"pins"` // slot, backend id
 	Uac    int      `json:"uac"`
 	Dc     int      `json:"dc"`
+	// Partial: no quiescent moment existed between this operation and the next one (the next
+	// one was waiting on a lock): only events, result and the counters were observed
+	Partial bool `json:"partial,omitempty"`
 }
 
 type caseOut struct {
@@ -244,6 +265,7 @@ type caseOut struct {
 	Init  [][2]int  `json:"init"`
 	Steps []stepOut `json:"steps"`
 	Note  string    `json:"note,omitempty"`
+	Tmo   int       `json:"tmo,omitempty"` // ReloadTimeout of the handler in ms (0: the default)
 }
 
 // tracker is the harness' own view of which operations are enabled.
@@ -269,6 +291,11 @@ func (t *tracker) ok(o gop, weak bool) bool {
 		return !t.shut
 	case "tpub", "tfirst":
 		return !t.shut
+	case "reloadx":
+		if o.X == nil || !t.ok(gop{K: "reload", C: o.C, Key: o.Key}, weak) {
+			return false
+		}
+		return t.ok(*o.X, weak) // a reload does not change what is enabled
 	case "late":
 		return o.I < t.npend
 	case "shutdown":
@@ -292,12 +319,30 @@ func (t *tracker) apply(o gop) {
 		t.npend--
 	case "shutdown":
 		t.shut = true
+	case "reloadx":
+		t.apply(*o.X)
 	}
 }
 
 type heldReader struct {
 	rd db.Reader
-	w  *db.DB
+	bk int // backend it pins, read off the NewContext event of its acquisition
+}
+
+// intrusion: one operation attempted from another goroutine while a reload is held at a hook point.
+type intrusion struct {
+	at      string
+	x       gop
+	sc      *script // script of the reload that is intruded upon
+	fired   bool
+	done    chan struct{}
+	inside  bool // the attempt returned while the reload was still held at the hook point
+	gid     uint64
+	rd      db.Reader
+	res     int
+	uac, dc int
+	mark    int // reload attempted: length of the event log when it passed reload_locked (-1: never)
+	xsc     *script
 }
 
 type runner struct {
@@ -309,6 +354,208 @@ type runner struct {
 	nev     int
 	out     caseOut
 	retry   bool // an operation did not take the requested course (spurious timeout): run again
+	imu     sync.Mutex
+	intr    *intrusion
+	abort   bool
+}
+
+var runners sync.Map // goroutine id -> *runner, for the process-wide yield hook
+
+// yieldHook is installed with dnsserver.SetVerifYieldHook; the goroutine tells the history.
+func yieldHook(_ context.Context, point string) {
+	g := gid()
+	v, ok := runners.Load(g)
+	if !ok {
+		return
+	}
+	r := v.(*runner)
+	if g == r.w.ownerGID {
+		switch point {
+		case "reload_locked":
+			r.fire("locked", nil)
+		case "reload_done":
+			r.fire("done", nil)
+		}
+		return
+	}
+	if point == "reload_locked" { // a reload attempted by the intruder got past the lock
+		r.imu.Lock()
+		if in := r.intr; in != nil && in.gid == g && in.mark < 0 {
+			r.w.mu.Lock()
+			in.mark = len(r.w.events)
+			r.w.mu.Unlock()
+		}
+		r.imu.Unlock()
+	}
+}
+
+// fire starts the pending intrusion if point is its hook point, and holds the caller (the
+// reload) for at most intrWait or until the attempt has returned.
+func (r *runner) fire(point string, sc *script) {
+	r.imu.Lock()
+	in := r.intr
+	if in == nil || in.fired || in.at != point || (sc != nil && sc != in.sc) {
+		r.imu.Unlock()
+		return
+	}
+	in.fired = true
+	r.imu.Unlock()
+	started := make(chan struct{})
+	go func() {
+		in.gid = gid()
+		runners.Store(in.gid, r)
+		defer runners.Delete(in.gid)
+		close(started)
+		r.runX(in)
+		r.w.mu.Lock()
+		in.uac, in.dc = r.w.uac, r.w.dc
+		r.w.mu.Unlock()
+		close(in.done)
+	}()
+	<-started
+	select {
+	case <-in.done:
+		in.inside = true
+	case <-time.After(intrWait):
+	}
+}
+
+func (r *runner) runX(in *intrusion) {
+	x := in.x
+	switch x.K {
+	case "acq":
+		rd, err := r.fb.AcquireReader()
+		if err == nil {
+			in.rd = rd
+		}
+	case "use":
+		r.readers[x.R].rd.ForEach(append([]byte{}, validationKey...), func([]byte) error { return nil })
+	case "rel":
+		r.readers[x.R].rd.Close()
+	case "shutdown":
+		r.fb.Close()
+	case "reload":
+		in.xsc = &script{cand: x.C, key: x.Key, done: make(chan struct{})}
+		r.w.mu.Lock()
+		r.w.scripts = append(r.w.scripts, in.xsc)
+		r.w.mu.Unlock()
+		in.res = errClass(r.fb.Reload(r.signal(x.C)))
+	}
+}
+
+func (r *runner) takeEventsG() ([][2]int, []uint64, int) {
+	r.w.mu.Lock()
+	defer r.w.mu.Unlock()
+	base := r.nev
+	ev := append([][2]int{}, r.w.events[r.nev:]...)
+	g := append([]uint64{}, r.w.egid[r.nev:]...)
+	r.nev = len(r.w.events)
+	return ev, g, base
+}
+
+func (r *runner) observePartial(o gop, res int, events [][2]int, uac, dc int) {
+	r.out.Steps = append(r.out.Steps, stepOut{Op: o, Events: events, Res: res, Refs: [][3]int{}, Pins: [][2]int{},
+		Uac: uac, Dc: dc, Partial: true})
+}
+
+// doReloadX: a reload during which x is attempted from another goroutine at a hook point.
+// What is emitted is the resolved history: the two operations in the order in which their
+// calls on the backends happened.
+func (r *runner) doReloadX(o gop) {
+	x := *o.X
+	ro := gop{K: "reload", C: o.C, Key: o.Key}
+	sc := &script{cand: o.C, key: o.Key, done: make(chan struct{})}
+	r.w.mu.Lock()
+	r.w.scripts = append(r.w.scripts, sc)
+	r.w.mu.Unlock()
+	in := &intrusion{at: o.At, x: x, sc: sc, done: make(chan struct{}), mark: -1}
+	r.imu.Lock()
+	r.intr = in
+	r.imu.Unlock()
+	res := errClass(r.fb.Reload(r.signal(o.C)))
+	r.w.mu.Lock()
+	ruac, rdc := r.w.uac, r.w.dc
+	r.w.mu.Unlock()
+	waitCh(sc.done, 2*time.Second)
+	if res != expectedRes(ro) {
+		r.retry = true
+		if sc.created != nil {
+			waitCh(sc.created.closedCh, 2*time.Second)
+		}
+	}
+	r.imu.Lock()
+	fired := in.fired
+	in.fired = true
+	r.imu.Unlock()
+	if !fired { // the hook point was not passed (no Close, reload not successful): plain sequence
+		r.imu.Lock()
+		r.intr = nil
+		r.imu.Unlock()
+		r.observe(ro, res, r.takeEvents())
+		r.do(x)
+		return
+	}
+	if !waitCh(in.done, 10*time.Second) {
+		r.out.Note += "attempted " + x.K + " never returned;"
+		r.abort = true
+		r.observe(ro, res, r.takeEvents())
+		return
+	}
+	if in.xsc != nil {
+		waitCh(in.xsc.done, 2*time.Second)
+		if in.res != expectedRes(x) {
+			r.retry = true
+		}
+	}
+	r.imu.Lock()
+	r.intr = nil
+	r.imu.Unlock()
+	evs, gids, base := r.takeEventsG()
+	re, xe := [][2]int{}, [][2]int{}
+	minX, maxR := -1, -1
+	for i := range evs {
+		isX := gids[i] == in.gid
+		if x.K == "reload" {
+			isX = in.mark >= 0 && base+i >= in.mark
+		}
+		if isX {
+			xe = append(xe, evs[i])
+			if minX < 0 {
+				minX = i
+			}
+		} else {
+			re = append(re, evs[i])
+			maxR = i
+		}
+	}
+	// order: by the calls on the backends; an attempt that made no call is placed by whether
+	// it had returned while the reload was still held at the hook point
+	after := !in.inside
+	if len(xe) > 0 {
+		after = minX > maxR
+	}
+	switch x.K {
+	case "acq":
+		bk := -1
+		for _, e := range xe {
+			if e[1] == evNewContext {
+				bk = e[0]
+				break
+			}
+		}
+		if in.rd != nil {
+			r.readers[x.R] = &heldReader{rd: in.rd, bk: bk}
+		}
+	case "rel":
+		delete(r.readers, x.R)
+	}
+	if after {
+		r.observePartial(ro, res, re, ruac, rdc)
+		r.observe(x, in.res, xe)
+	} else {
+		r.observePartial(x, in.res, xe, in.uac, in.dc)
+		r.observe(ro, res, re)
+	}
 }
 
 func (r *runner) probe(d *db.DB) int {
@@ -352,7 +599,7 @@ func (r *runner) observe(o gop, res int, events [][2]int) {
 	}
 	for slot := 0; slot < 64; slot++ {
 		if h, ok := r.readers[slot]; ok {
-			st.Pins = append(st.Pins, [2]int{slot, r.probe(h.w)})
+			st.Pins = append(st.Pins, [2]int{slot, h.bk})
 		}
 	}
 	r.w.mu.Lock()
@@ -403,14 +650,26 @@ func expectedRes(o gop) int {
 func (r *runner) do(o gop) {
 	switch o.K {
 	case "acq":
-		w := r.fb.DBForVerif()
 		rd, err := r.fb.AcquireReader()
 		if err != nil {
 			r.out.Note += "acquire failed: " + err.Error() + ";"
 			return
 		}
-		r.readers[o.R] = &heldReader{rd: rd, w: w}
-		r.observe(o, 0, r.takeEvents())
+		ev := r.takeEvents()
+		bk := -1
+		for _, e := range ev {
+			if e[1] == evNewContext {
+				bk = e[0]
+				break
+			}
+		}
+		if bk < 0 {
+			bk = r.probe(r.fb.DBForVerif())
+		}
+		r.readers[o.R] = &heldReader{rd: rd, bk: bk}
+		r.observe(o, 0, ev)
+	case "reloadx":
+		r.doReloadX(o)
 	case "use":
 		r.readers[o.R].rd.ForEach(append([]byte{}, validationKey...), func([]byte) error { return nil })
 		r.observe(o, 0, r.takeEvents())
@@ -491,15 +750,21 @@ func (r *runner) do(o gop) {
 	}
 }
 
-func runHistory(class string, gen []gop) caseOut {
+func runHistory(class string, gen []gop, tmoMs int) caseOut {
 	var out caseOut
+	tmo := reloadTimeout
+	if tmoMs > 0 {
+		tmo = time.Duration(tmoMs) * time.Millisecond
+	}
+	me := gid()
+	defer runners.Delete(me)
 	for attempt := 0; attempt < 6; attempt++ {
-		w := &world{ownerGID: gid()}
+		w := &world{ownerGID: me}
 		w.mu.Lock()
 		b0 := w.newBackend(true)
 		w.mu.Unlock()
 		fb, err := dnsserver.NewFBDNSDBBasic(dnsserver.HandlerConfig{},
-			dnsserver.DBConfig{Path: "/nonexistent/verif-c06/db", Driver: "fake", ReloadTimeout: reloadTimeout,
+			dnsserver.DBConfig{Path: "/nonexistent/verif-c06/db", Driver: "fake", ReloadTimeout: tmo,
 				ValidationKey: append([]byte{}, validationKey...)},
 			dnsserver.CacheConfig{}, &dnsserver.DummyLogger{}, &stats.DummyStats{})
 		if err != nil {
@@ -508,10 +773,15 @@ func runHistory(class string, gen []gop) caseOut {
 		d0 := db.NewDBForVerif(b0)
 		fb.SetDBForVerif(d0)
 		r := &runner{w: w, fb: fb, known: []*db.DB{d0}, readers: map[int]*heldReader{}}
-		r.out = caseOut{Class: class, Gen: gen, Steps: []stepOut{}}
+		w.r = r
+		runners.Store(me, r)
+		r.out = caseOut{Class: class, Gen: gen, Steps: []stepOut{}, Tmo: tmoMs}
 		r.out.Init = r.takeEvents()
 		t := newTracker()
 		for _, o := range gen {
+			if r.abort {
+				break
+			}
 			if !t.ok(o, true) { // never run what the code cannot meaningfully do (unheld slot etc.)
 				r.out.Note += "skipped " + o.K + ";"
 				continue
@@ -656,6 +926,7 @@ func enumerate(depth, slots int, emit func([]gop)) {
 type job struct {
 	class string
 	gen   []gop
+	tmo   int
 }
 
 func runAll(jobs []job, e *hlib.Emitter, par int) {
@@ -668,7 +939,7 @@ func runAll(jobs []job, e *hlib.Emitter, par int) {
 		go func(i int) {
 			defer wg.Done()
 			defer func() { <-sem }()
-			res[i] = runHistory(jobs[i].class, jobs[i].gen)
+			res[i] = runHistory(jobs[i].class, jobs[i].gen, jobs[i].tmo)
 		}(i)
 	}
 	wg.Wait()
@@ -691,36 +962,46 @@ func run(a *hlib.Args, e *hlib.Emitter) error {
 		for _, m := range cs {
 			var class string
 			var gen []gop
+			var tmo int
 			json.Unmarshal(m["class"], &class)
+			json.Unmarshal(m["tmo"], &tmo)
 			if err := json.Unmarshal(m["gen"], &gen); err != nil {
 				return err
 			}
-			jobs = append(jobs, job{class, gen})
+			jobs = append(jobs, job{class, gen, tmo})
 		}
 		runAll(jobs, e, 4)
 		return nil
 	}
 	var jobs []job
+	// the in-flight finding F28 (outside the guard of the theorems): three fixed witnesses
+	inflight := []job{
+		{"inflight", []gop{{K: "tfirst"}, {K: "reload", C: "new", Key: true}, {K: "late", C: "err"}}, 0},
+		{"inflight", []gop{{K: "acq", R: 0}, {K: "tfirst"}, {K: "reload", C: "new", Key: true}, {K: "rel", R: 0}, {K: "late", C: "same", Key: true}}, 0},
+		{"inflight", []gop{{K: "tfirst"}, {K: "shutdown"}, {K: "late", C: "new", Key: true}}, 0}}
 	if a.Extra == "inflight" {
-		// the in-flight finding (outside the guard): never part of a normal run
-		jobs = append(jobs,
-			job{"inflight", []gop{{K: "tfirst"}, {K: "reload", C: "new", Key: true}, {K: "late", C: "err"}}},
-			job{"inflight", []gop{{K: "acq", R: 0}, {K: "tfirst"}, {K: "reload", C: "new", Key: true}, {K: "rel", R: 0}, {K: "late", C: "same", Key: true}}},
-			job{"inflight", []gop{{K: "tfirst"}, {K: "shutdown"}, {K: "late", C: "new", Key: true}}})
-		runAll(jobs, e, 4)
+		runAll(inflight, e, 4)
 		return nil
 	}
+	if a.Extra == "intr" { // only the histories with operations attempted inside a reload
+		jobs = intrusionJobs(hlib.NewRng(a.Seed, 7), a.N)
+		runAll(jobs, e, 16)
+		return nil
+	}
+	jobs = append(jobs, inflight...)
 	depth, slots := 2, 3
 	if a.Tier == "thorough" {
 		depth, slots = 4, 2
 	}
-	enumerate(depth, slots, func(h []gop) { jobs = append(jobs, job{fmt.Sprintf("exh%d", depth), h}) })
+	enumerate(depth, slots, func(h []gop) { jobs = append(jobs, job{fmt.Sprintf("exh%d", depth), h, 0}) })
 	r := hlib.NewRng(a.Seed, 6)
 	nrace := a.N / 12
-	for i := 0; i < a.N-nrace; i++ {
-		jobs = append(jobs, job{"random", genRandom(r, 25, 3)})
+	nintr := a.N / 8
+	for i := 0; i < a.N-nrace-nintr; i++ {
+		jobs = append(jobs, job{"random", genRandom(r, 25, 3), 0})
 	}
 	runAll(jobs, e, 24)
+	runAll(intrusionJobs(hlib.NewRng(a.Seed, 7), nintr), e, 16)
 	jobs = nil
 	for i := 0; i < nrace; i++ {
 		// a short random prefix, then a reload whose backend returns right at the timeout
@@ -740,13 +1021,113 @@ func run(a *hlib.Args, e *hlib.Emitter) error {
 				pre = append(pre, gop{K: "rel", R: s})
 			}
 		}
-		jobs = append(jobs, job{"race", pre})
+		jobs = append(jobs, job{"race", pre, 0})
 	}
 	runAll(jobs, e, 3) // the race attempts busy-wait: keep them away from each other
 	return nil
 }
 
+// intrusionJobs: histories in which an operation is attempted from another goroutine while a
+// reload is held inside DBI.Reload, inside a backend's Close, or at the reload_locked /
+// reload_done yield points.  acquire, shutdown and a second reload must wait for reloadMu;
+// use and release of a held reader need no lock and complete on the spot.
+func intrusionJobs(r *hlib.Rng, nrandom int) []job {
+	tmo := int(intrReloadTimeout / time.Millisecond)
+	var jobs []job
+	ats := []string{"locked", "dbireload", "close", "done"}
+	for _, at := range ats {
+		for ci, c := range cands {
+			xs := []gop{{K: "acq", R: 0}, {K: "shutdown"}, {K: "reload", C: "new", Key: true}, {K: "reload", C: "same", Key: true}}
+			for _, x := range xs {
+				x := x
+				h := []gop{{K: "reloadx", C: c.C, Key: c.Key, At: at, X: &x}}
+				if x.K == "acq" {
+					h = append(h, gop{K: "use", R: 0}, gop{K: "rel", R: 0})
+				}
+				jobs = append(jobs, job{"intr-exh", h, tmo})
+				if ci != 0 {
+					continue
+				}
+				// the same with a reader held on the old backend
+				h2 := append([]gop{{K: "acq", R: 1}}, h...)
+				h2 = append(h2, gop{K: "use", R: 1}, gop{K: "rel", R: 1})
+				jobs = append(jobs, job{"intr-exh", h2, tmo})
+			}
+			if ci == 0 {
+				for _, x := range []gop{{K: "use", R: 1}, {K: "rel", R: 1}} {
+					x := x
+					h := []gop{{K: "acq", R: 1}, {K: "reloadx", C: c.C, Key: c.Key, At: at, X: &x}}
+					if x.K == "use" {
+						h = append(h, gop{K: "rel", R: 1})
+					}
+					jobs = append(jobs, job{"intr-exh", h, tmo})
+				}
+			}
+		}
+	}
+	for i := 0; i < nrandom; i++ {
+		n := 3 + r.Intn(10)
+		t := newTracker()
+		var h []gop
+		nx := 0
+		for tries := 0; len(h) < n && tries < 200; tries++ {
+			var o gop
+			switch r.Pick([]int{4, 3, 3, 3, 6, 1}) {
+			case 0:
+				o = gop{K: "acq", R: r.Intn(3)}
+			case 1:
+				o = gop{K: "use", R: r.Intn(3)}
+			case 2:
+				o = gop{K: "rel", R: r.Intn(3)}
+			case 3:
+				o = cands[r.Pick([]int{4, 2, 1, 2, 2})]
+			case 4:
+				c := cands[r.Pick([]int{6, 2, 1, 2, 1})]
+				var x gop
+				switch r.Pick([]int{6, 2, 2, 1, 2}) {
+				case 0:
+					x = gop{K: "acq", R: r.Intn(3)}
+				case 1:
+					x = gop{K: "use", R: r.Intn(3)}
+				case 2:
+					x = gop{K: "rel", R: r.Intn(3)}
+				case 3:
+					x = gop{K: "shutdown"}
+				default:
+					x = cands[r.Pick([]int{4, 2, 1, 2, 2})]
+				}
+				o = gop{K: "reloadx", C: c.C, Key: c.Key, At: ats[r.Intn(len(ats))], X: &x}
+			default:
+				if len(h) < n/2 {
+					continue
+				}
+				o = gop{K: "shutdown"}
+			}
+			if !t.ok(o, false) {
+				continue
+			}
+			if o.K == "reloadx" {
+				nx++
+			}
+			t.apply(o)
+			h = append(h, o)
+		}
+		if nx == 0 {
+			i--
+			continue
+		}
+		for s := 0; s < 3; s++ {
+			if t.held[s] {
+				h = append(h, gop{K: "rel", R: s})
+			}
+		}
+		jobs = append(jobs, job{"intr", h, tmo})
+	}
+	return jobs
+}
+
 func main() {
+	dnsserver.SetVerifYieldHook(yieldHook)
 	flag.Set("logtostderr", "true")
 	flag.Set("stderrthreshold", "FATAL")
 	hlib.Main(run)
